@@ -240,3 +240,42 @@ Example ex_views_all :
   exec_views 24 w0 None ex_steps = [(80, Some "5"%string, None); (96, Some "7"%string, Some ("7"%string, 80))] /\
   exec_views 24 w0 None ex_steps_late = [(80, Some "5"%string, None); (104, Some "6"%string, Some ("7"%string, 80))].
 Proof. exact (conj (proj1 ex_views_in_order) (conj (proj2 ex_views_in_order) ex_views)). Qed.
+
+(* =====================================================================================
+   apply(): the version reported to the worker is the version of the LAST response of the cycle
+   ===================================================================================== *)
+Theorem apply_reports_last_write : forall a, apply_rv a = last (apply_responses a) None.
+Proof.
+  intros a. unfold apply_rv, apply_responses.
+  destruct (a_patch a), (a_touches a); reflexivity.
+Qed.
+
+Theorem apply_none_iff_nothing_sent : forall a, apply_responses a = [] -> apply_rv a = None.
+Proof. intros a E. rewrite apply_reports_last_write, E. reflexivity. Qed.
+
+(* every request that carries an object version is reported unless a later request follows *)
+Theorem apply_any_write_reported : forall a r, last (apply_responses a) None = Some r -> apply_rv a = Some r.
+Proof. intros a r E. rewrite apply_reports_last_write. exact E. Qed.
+
+(* the touch-dummy patch after a full sleep is a write like any other *)
+Theorem apply_touch_reported : forall a, a_touches a = true -> apply_rv a = a_resp2 a.
+Proof. intros a E. unfold apply_rv. rewrite E. reflexivity. Qed.
+
+Example ex_apply_touch :
+  let a := mkA false (Some 4) false None (Some "9"%string) in
+  a_sleeps a = Some 4 /\ a_touches a = true /\ apply_responses a = [Some "9"%string] /\ apply_rv a = Some "9"%string.
+Proof. vm_compute. repeat split. Qed.
+
+Example ex_apply_interrupted :
+  let a := mkA false (Some 4) true None (Some "9"%string) in
+  a_touches a = false /\ apply_responses a = [] /\ apply_rv a = None.
+Proof. vm_compute. repeat split. Qed.
+
+(* The barrier when the processor's result comes from apply(): a cycle is a processed event whose
+   `p_patched` is what apply() reports for the requests the cycle sent.  Then "the operator's last write"
+   of the barrier theorems is the last response of the last cycle that sent anything. *)
+Definition cycle_writes (p : pstep) (a : ain) : Prop := p_patched p = apply_rv a.
+
+Theorem cycle_reports_its_last_write : forall p a, cycle_writes p a ->
+  p_patched p = last (apply_responses a) None.
+Proof. intros p a H. rewrite H. apply apply_reports_last_write. Qed.
